@@ -10,7 +10,14 @@
                              found     -> new := ignoreFields(old, metadata)            (foreign fields taken from old)
                                           podGroupsEqual(old,new) ? nothing : Update    (0 / 1 mutating call)
                           assignPodToGroupAndSubGroup: annotation/label differ ? Patch pod : nothing
-     ForeignUpdate(g,f) = another actor (scheduler, pod-group-assigner, admin) writes a field it owns.
+     ForeignUpdate(g,f) = another actor (scheduler, pod-group-assigner, admin) writes a field it owns
+                          (queue, markUnschedulable, schedulingBackoff, node-pool label, or an annotation
+                          of its own such as the scheduler's kai.scheduler/last-start-timestamp: "stamp").
+     OwnerChange(k)     = the user adds / changes a label (k = "l") or an annotation (k = "a") on the object
+                          the plugin inherits metadata from (top owner): a LEGITIMATE external change. The
+                          next reconcile of a pod of each group is expected to write the PodGroup (the
+                          inherited label / annotation is part of the derived fields), the foreign fields
+                          must survive that write, and afterwards reconciles are silent again.
 
    The pods are the sibling pods of ONE top owner. `grp[p]` is the documented grouping function of
    the owner kind: pods with the same grp value share a PodGroup (<<1,1,1>> gang kinds, <<1,2,3>>
@@ -30,34 +37,39 @@
                           the annotation names an existing PodGroup
      C18_Deterministic    after any reconcile order every existing PodGroup's derived fields = exp,
                           no PodGroup nobody documents exists, sub-group labels = expsub
-     C18_Idempotent       a Reconcile(p) of an already reconciled pod whose group saw no foreign
-                          update since a completed reconcile performs 0 mutating calls
+     C18_Idempotent       a Reconcile(p) of an already reconciled pod whose group saw no external
+                          change (foreign update, owner change) since a completed reconcile performs
+                          0 mutating calls
      C18_ForeignPreserved [][Reconcile => foreign fields of existing PodGroups unchanged]_vars
 *)
 EXTENDS Integers, Sequences, FiniteSets, TLC
 
 CONSTANTS GroupOf,      \* model: the grouping function as a sequence pod -> group
           MaxSteps,     \* model: bound on the schedule length
-          MaxForeign    \* model: bound on the number of foreign updates in a schedule
+          MaxForeign,   \* model: bound on the number of foreign updates in a schedule
+          MaxOwner      \* model: bound on the number of owner changes in a schedule
 
 VARIABLES grp, exp, expsub,   \* scenario
           pg,                 \* [group -> [ex : BOOLEAN, d : derived record, f : foreign record]]
           extra,              \* number of PodGroups in the namespace that no group of the scenario documents
           ann, lab,           \* per pod: pod-group-name annotation, sub-group label
           done,               \* per pod: reconciled at least once
-          dirty,              \* per group: foreign update since the last reconcile that touched the group
+          dirty,              \* per group: external change (foreign update, owner change) since the last reconcile that touched the group
+          ov,                 \* [l, a]: how often the owner's label / annotation was changed (0 = key absent)
+          odirty,             \* per group: owner change not yet seen by a reconcile of a pod of the group
           fc,                 \* per group, per field: number of foreign updates so far
           steps,
           last                \* label + observed effect of the last action
 
-vars == <<grp, exp, expsub, pg, extra, ann, lab, done, dirty, fc, steps, last>>
+vars == <<grp, exp, expsub, pg, extra, ann, lab, done, dirty, ov, odirty, fc, steps, last>>
 
-Fields == {"queue", "mark", "backoff", "nodepool"}
+Fields == {"queue", "mark", "backoff", "nodepool", "stamp"}
+OwnerKinds == {"l", "a"}
 Pods == 1..Len(grp)
 Groups == {grp[p] : p \in Pods}
 
-NoD == [name |-> "", min |-> 0, prio |-> "", preempt |-> "", sub |-> "", owner |-> "", topo |-> ""]
-NoF == [queue |-> "", mark |-> "", backoff |-> "", nodepool |-> ""]
+NoD == [name |-> "", min |-> 0, prio |-> "", preempt |-> "", sub |-> "", owner |-> "", topo |-> "", ol |-> "", oa |-> ""]
+NoF == [queue |-> "", mark |-> "", backoff |-> "", nodepool |-> "", stamp |-> ""]
 NoPG == [ex |-> FALSE, d |-> NoD, f |-> NoF]
 
 \* the value the k-th foreign update writes (the harness writes the same values)
@@ -66,11 +78,16 @@ FVal(f, k) ==
     [] f = "mark"     -> IF k % 2 = 1 THEN "true" ELSE "false"
     [] f = "backoff"  -> IF k = 1 THEN "-1" ELSE "1"
     [] f = "nodepool" -> "pool-f" \o ToString(k)
+    [] f = "stamp"    -> "ts" \o ToString(k)
+\* the value of the inherited owner label / annotation after k changes (the first change ADDS the key)
+OVal(k) == IF k = 0 THEN "" ELSE "v" \o ToString(k)
 
 WantD(g) == [name |-> exp[g].name, min |-> exp[g].min, prio |-> exp[g].prio, preempt |-> exp[g].preempt,
-             sub |-> exp[g].sub, owner |-> exp[g].owner, topo |-> exp[g].topo]
+             sub |-> exp[g].sub, owner |-> exp[g].owner, topo |-> exp[g].topo, ol |-> OVal(ov.l), oa |-> OVal(ov.a)]
+\* the part of the derived fields that does not depend on later owner edits
+BaseD(d) == [name |-> d.name, min |-> d.min, prio |-> d.prio, preempt |-> d.preempt, sub |-> d.sub, owner |-> d.owner, topo |-> d.topo]
 \* foreign fields at creation: queue and node-pool label are derived, the others unset
-InitF(g) == [queue |-> exp[g].queue, mark |-> "nil", backoff |-> "nil", nodepool |-> exp[g].nodepool]
+InitF(g) == [queue |-> exp[g].queue, mark |-> "nil", backoff |-> "nil", nodepool |-> exp[g].nodepool, stamp |-> ""]
 
 NFor == LET S == {<<g, f>> : g \in Groups, f \in Fields}
             RECURSIVE Sum(_)
@@ -91,6 +108,8 @@ Init ==
   /\ ann = [p \in 1..Len(GroupOf) |-> ""] /\ lab = [p \in 1..Len(GroupOf) |-> ""]
   /\ done = [p \in 1..Len(GroupOf) |-> FALSE]
   /\ dirty = [g \in {GroupOf[p] : p \in 1..Len(GroupOf)} |-> FALSE]
+  /\ odirty = [g \in {GroupOf[p] : p \in 1..Len(GroupOf)} |-> FALSE]
+  /\ ov = [l |-> 0, a |-> 0]
   /\ fc = [g \in {GroupOf[p] : p \in 1..Len(GroupOf)} |-> [f \in Fields |-> 0]]
   /\ steps = 0
   /\ last = NoLast
@@ -109,10 +128,11 @@ Reconcile(p) ==
      /\ lab' = [lab EXCEPT ![p] = expsub[p]]
      /\ done' = [done EXCEPT ![p] = TRUE]
      /\ dirty' = [dirty EXCEPT ![g] = FALSE]
+     /\ odirty' = [odirty EXCEPT ![g] = FALSE]
      /\ steps' = steps + 1
      /\ last' = [n |-> "Reconcile", p |-> p, g |-> g, f |-> "", wpg |-> wpg, wpod |-> wpod, wother |-> 0,
                  idem |-> done[p] /\ ~dirty[g]]
-     /\ UNCHANGED <<grp, exp, expsub, extra, fc>>
+     /\ UNCHANGED <<grp, exp, expsub, extra, fc, ov>>
 
 ForeignUpdate(g, f) ==
   /\ steps < MaxSteps /\ NFor < MaxForeign
@@ -123,9 +143,20 @@ ForeignUpdate(g, f) ==
   /\ dirty' = [dirty EXCEPT ![g] = TRUE]
   /\ steps' = steps + 1
   /\ last' = [n |-> "Foreign", p |-> 0, g |-> g, f |-> f, wpg |-> 0, wpod |-> 0, wother |-> 0, idem |-> FALSE]
-  /\ UNCHANGED <<grp, exp, expsub, extra, ann, lab, done>>
+  /\ UNCHANGED <<grp, exp, expsub, extra, ann, lab, done, ov, odirty>>
 
-Next == (\E p \in Pods : Reconcile(p)) \/ (\E g \in Groups, f \in Fields : ForeignUpdate(g, f))
+OwnerChange(k) ==
+  /\ steps < MaxSteps /\ ov.l + ov.a < MaxOwner
+  /\ ov' = [ov EXCEPT ![k] = @ + 1]
+  /\ dirty' = [g \in Groups |-> TRUE]
+  /\ odirty' = [g \in Groups |-> TRUE]
+  /\ steps' = steps + 1
+  /\ last' = [n |-> "Owner", p |-> 0, g |-> 0, f |-> k, wpg |-> 0, wpod |-> 0, wother |-> 0, idem |-> FALSE]
+  /\ UNCHANGED <<grp, exp, expsub, pg, extra, ann, lab, done, fc>>
+
+Next == \/ \E p \in Pods : Reconcile(p)
+        \/ \E g \in Groups, f \in Fields : ForeignUpdate(g, f)
+        \/ \E k \in OwnerKinds : OwnerChange(k)
 Spec == Init /\ [][Next]_vars
 
 (* ---------------------------------------------------------------------------------------------- *)
@@ -133,7 +164,7 @@ TypeOK ==
   /\ \A g \in Groups : pg[g].ex \in BOOLEAN /\ pg[g].d.min \in Nat
   /\ \A p \in Pods : done[p] \in BOOLEAN
   /\ steps \in 0..MaxSteps /\ extra \in Nat
-  /\ last.n \in {"Init", "Reconcile", "Foreign"}
+  /\ last.n \in {"Init", "Reconcile", "Foreign", "Owner"}
 
 C18_SameGroup ==
   \A p \in Pods : done[p] =>
@@ -144,7 +175,9 @@ C18_SameGroup ==
 C18_Deterministic ==
   /\ extra = 0
   /\ \A g \in Groups : pg[g].ex =>
-        /\ pg[g].d = WantD(g)
+        /\ BaseD(pg[g].d) = BaseD(WantD(g))
+        \* inherited owner metadata: current once a pod of the group was reconciled after the owner changed
+        /\ ~odirty[g] => (pg[g].d.ol = OVal(ov.l) /\ pg[g].d.oa = OVal(ov.a))
         /\ fc[g]["queue"] = 0 => pg[g].f.queue = exp[g].queue
         /\ fc[g]["nodepool"] = 0 => pg[g].f.nodepool = exp[g].nodepool
   /\ \A p \in Pods : done[p] => lab[p] = expsub[p]
@@ -158,6 +191,6 @@ C18_ForeignPreservedStep ==
 C18_ForeignPreserved == [][C18_ForeignPreservedStep]_vars
 
 (* ---- schedule export: one line per transition of the schedule graph (VIEW hides steps/last) ---- *)
-SchedView == <<pg, ann, lab, done, dirty, fc>>
-Proj == [pg |-> [g \in Groups |-> [ex |-> pg[g].ex, f |-> pg[g].f]], done |-> done, dirty |-> dirty]
+SchedView == <<pg, ann, lab, done, dirty, fc, ov, odirty>>
+Proj == [pg |-> [g \in Groups |-> [ex |-> pg[g].ex, f |-> pg[g].f, ol |-> pg[g].d.ol, oa |-> pg[g].d.oa]], done |-> done, dirty |-> dirty, ov |-> ov, od |-> odirty]
 =============================================================================
